@@ -850,7 +850,7 @@ HEADER = ("From Coq Require Import ZArith List Bool.\nImport ListNotations.\n"
 
 def run(run):
     nj, ns, njs, npy = (1500, 900, 500, 3000) if run.thorough else \
-        (110, 70, 36, 300)
+        (100, 64, 32, 300)
     cases = load_corpus()
     run.count("corpus", len(cases))
     cases += [gen_join_case(run.rng, run.thorough) for _ in range(nj)]
@@ -859,7 +859,9 @@ def run(run):
     file_cases = [c for c in cases if c["kind"] != "pysem"]
     py_cases = [c for c in cases if c["kind"] == "pysem"] + \
         [gen_pysem_case(run.rng) for _ in range(npy)]
+    t_impl = time.time()
     results = run_cases(file_cases, run.scratch)
+    run.extra["seconds_implementation"] = round(time.time() - t_impl, 1)
     by_fn = {}
     for c, r in zip(file_cases, results):
         if r.get("harness_error"):
@@ -879,11 +881,21 @@ def run(run):
         run.count("pysem:tag=%d" % c["tag"])
         by_fn.setdefault("pysem_flat", []).append(
             (c, dict(coq=render_pysem(c), impl=impl)))
-    for fn, items in by_fn.items():
-        model = common.coq_map(run.scratch, "c09_" + fn, HEADER, fn,
-                               [r["coq"] for _, r in items],
-                               shard=(400 if fn == "pysem_flat" else 40))
-        for (c, r), m in zip(items, model):
+    t_model = time.time()
+    import concurrent.futures
+
+    def eval_model(fn):
+        items = by_fn[fn]
+        return common.coq_map(run.scratch, "c09_" + fn, HEADER, fn,
+                              [r["coq"] for _, r in items],
+                              shard=(400 if fn == "pysem_flat" else 30))
+
+    fns = sorted(by_fn)
+    with concurrent.futures.ThreadPoolExecutor(max_workers=4) as ex:
+        models = list(ex.map(eval_model, fns))
+    run.extra["seconds_model"] = round(time.time() - t_model, 1)
+    for fn, model in zip(fns, models):
+        for (c, r), m in zip(by_fn[fn], model):
             run.corr_checked += 1
             mm = strip_source_logs(m) if fn == "join_split_flat" else m
             if mm != r["impl"]:
